@@ -73,7 +73,7 @@ def apply_calls(entry, est, args):
     k = entry["kind"]
     y = args[0]
     if k == "forecaster":
-        return [lambda: est.predict([1]), lambda: est.update(y.iloc[-2:] if hasattr(y, "iloc") else y),
+        return [lambda: est.predict([1]), lambda: est.predict(), lambda: est.update(y.iloc[-2:] if hasattr(y, "iloc") else y),
                 lambda: est.update_predict_single(y.iloc[-2:], fh=[1]), lambda: est.update_predict(y.iloc[-4:]),
                 lambda: est.score(y.iloc[-2:], fh=[1, 2])]
     if k == "series-transformer":
@@ -145,6 +145,23 @@ def tokens(est, tr):
     return out
 
 
+def deep_state(est):
+    """Identity and fitted flag of every estimator-valued constructor argument (also inside lists of tuples)."""
+    out = []
+
+    def visit(path, v):
+        if hasattr(v, "get_params") and not isinstance(v, type):
+            out.append((path, id(v), bool(getattr(v, "_is_fitted", False))))
+            for k, w in v.get_params(deep=False).items():
+                visit(path + "." + k, w)
+        elif isinstance(v, (list, tuple)):
+            for i, w in enumerate(v):
+                visit(path + "[%d]" % i, w)
+    for k, w in est.get_params(deep=False).items():
+        visit(k, w)
+    return out
+
+
 def run_plan(entry, plan, seed, tid):
     warnings.filterwarnings("ignore")
     from sklearn.base import clone
@@ -191,14 +208,51 @@ def run_plan(entry, plan, seed, tid):
                 emit(op, "", not_fitted_outcome(apply_calls(entry, fresh, args)), est, False)
             elif op == "fit":
                 try:
+                    before = deep_state(est)
                     r = est.fit(*args, **kw)
-                    emit("fit", "", "", est, r is est)
+                    # constructor arguments (and the prototype objects among them) are left exactly as they were
+                    emit("fit", "", "" if deep_state(est) == before else "params_changed", est, r is est)
                 except Exception as e:
                     emit("fit", "", "other:" + type(e).__name__ + ":" + str(e)[:60], est, False)
                     break
                 c = clone(est)
                 emit("clone_fitted", "", not_fitted_outcome(apply_calls(entry, c, args)), c, False)
     return ev, tr
+
+
+def list_and_component(entry):
+    """One set_params call that installs a new component list AND sets a component by a name that only the new
+    list has (documented order: list first, then components); a name only the old list had must be rejected."""
+    from sktime.forecasting.naive import NaiveForecaster
+    est = entry["factory"]()
+    shallow = est.get_params(deep=False)
+    lname = next((n for n in ("forecasters", "steps") if n in shallow and isinstance(shallow[n], list)), None)
+    if lname is None or entry["name"] == "fc_mux":
+        return None
+    old = list(shallow[lname])
+    if lname == "steps":
+        new = [("zz_new", old[0][1])] + old[1:]
+        repl = old[0][1]
+        gone = old[0][0]
+    else:
+        new = old[:-1] + [("zz_new", old[-1][1])]
+        repl = NaiveForecaster(strategy="last", sp=7)
+        gone = old[-1][0]
+    res = {}
+    try:
+        est.set_params(**{lname: new, "zz_new": repl})
+        res["installed"] = est.get_params(deep=True).get("zz_new") is repl
+    except Exception as e:
+        res["installed"] = "raised %s" % type(e).__name__
+    est2 = entry["factory"]()
+    try:
+        est2.set_params(**{lname: new, gone: repl})
+        res["old_name"] = "accepted"
+    except ValueError:
+        res["old_name"] = "rejected"
+    except Exception as e:
+        res["old_name"] = "raised %s" % type(e).__name__
+    return res
 
 
 def run(ctx):
@@ -235,6 +289,16 @@ def run(ctx):
             trace += ev
             if any(p[0] in cover for p in plan):
                 ctx.nontriv(meta[tid])
+        lc = list_and_component(entry) if entry["kind"] == "forecaster" else None
+        if lc is not None:
+            tid += 1
+            ctx.evaluations += 1
+            meta[tid] = {"estimator": entry["name"], "plan": [["set_list_and_component", ""]]}
+            trace.append({"tid": tid, "i": 1, "op": "set_alt", "name": "c",
+                          "obs": {"rej": "" if lc["installed"] is True else "other", "params": {"c": "alt" if lc["installed"] is True else "other"},
+                                  "fitted": False, "self": True}})
+            trace.append({"tid": tid, "i": 2, "op": "set_unknown", "name": "",
+                          "obs": {"rej": "unknown" if lc["old_name"] == "rejected" else "other", "params": {}, "fitted": False, "self": False}})
         if ei % 15 == 0:
             ctx.sample({"scenario": meta[tid], "events": [(e["op"], e["name"], e["obs"]) for e in ev][:6]})
     # static constructor scan of every estimator class in the source tree
